@@ -24,19 +24,31 @@ EXPLANATION = ("S2 theorems (loop invariant, feasibility of the returned points,
                "checks the real outputs against independent membership predicates, a verified distance bracket "
                "(witness pair + separating-plane lower bound from analytic support values) and exact ground truth")
 PARTIAL = {
-    "SolverSpec (hypothesis of inv/feasible/exit_* /terminates)":
-        "the solver contract (min-norm point of the hull of the stored points, strictly positive weights exactly on "
-        "the reported feature set, 0xf only with v = 0) is assumed here; it is C18's theorem outside its named "
-        "degenerate bands (|b-a|^2 < eps^2, |n|^2 < eps^2, |sign_p| <= eps) and is not re-proved for joltSolver",
+    "VisitedGood JoltGood (hypothesis of jolt_inv/jolt_feasible/jolt_exit_*/jolt_terminates)":
+        "the solver contract (min-norm point of the hull of the stored points, v_len_sq = |v|^2, success <-> |v|^2 < prev, "
+        "strictly positive weights exactly on the reported feature set, 0xf only with v = 0) is no longer assumed: it is "
+        "proved for the model of the real solver (joltSolver_spec : SolverSpecOn JoltGood joltSolver, joltSolver_total) on "
+        "JoltGood = the conjunction of the C18 hypotheses (n=2 EdgeOK; n=3 FaceOK; n=4 TetraOK = MAX_FLOAT bounds and "
+        "[consistent plane signs, no plane value in the EPSILON band, four TriRegular faces] or [exactly flat, four FaceOK "
+        "faces]). The unconditional contract is false for the as-is code (joltSolver_unconditional_asIs_counterexample, the "
+        "F-C18-jolt-abs-eps tetrahedron). What remains a hypothesis: every simplex the run hands to the solver is JoltGood "
+        "(VisitedGood; step level: JoltGood of the one simplex). Discharged for sets whose <=4-point simplices of A-B are "
+        "all exact (visitedGood_of_minkDiff; instance two_points_visitedGood); JoltGood is decided by the executable "
+        "checker joltGoodB (joltGoodB_iff); that a general run (two boxes, say) stays outside the bands is not proved",
     "feasible / exit_intersection (NonDeg)":
-        "BarySpec is proved for the C18 model of the three barycentric routines (joltBary_spec) only outside their "
-        "degenerate bands jnd2/jnd3/jnd4; inside the bands (final simplex with an edge shorter than eps, Gram "
-        "determinant below eps, zero volume) the returned points are covered by the run-time oracle only",
+        "BarySpec is proved for the C18 model of the three barycentric routines (joltBary_spec) outside their degenerate "
+        "bands: jnd2 (|b-a|^2 >= EPSILON_SQR), jnd3 (after repair dbe9d34 scale free: the Gram determinant 4*area^2 of the "
+        "two edges the routine selects exceeds EPSILON*L^4, L^2 the longest squared edge, i.e. the final triangle is not a "
+        "sliver with altitude <= sqrt(EPSILON)*L; the former absolute band |den| < EPSILON, which swallowed every "
+        "well-shaped triangle smaller than ~1e-4, is gone: bary_plane_band_asIs_before_fix_counterexample / "
+        "bary_plane_band_fixed / bary_plane_tiny_triangle_fixed), jnd4 (non-zero volume); inside the bands the returned "
+        "points are covered by the run-time oracle only",
     "exit_stall_accuracy":
         "bound proved: d - dist <= max(eps*R, sqrt(eps)*diam(A-B)) in exact arithmetic; float rounding of the "
         "termination tests (the reason the tolerance exists) is outside the model",
     "terminates":
-        "proved for a total solver and tolerance != 0 (fuel exhaustion unreachable); the concrete iteration count "
+        "proved for tolerance != 0 (fuel exhaustion unreachable); totality of the solver is proved for the real one on "
+        "JoltGood (joltSolver_total, jolt_terminates); the concrete iteration count "
         "(<= 1000 support evaluations) is C19's explored part, not proved",
     "sanity_check assert":
         "modelled as assertFail in gjkFinish; every theorem assumes gjkDistance = ok, i.e. unreachability of that "
@@ -44,22 +56,24 @@ PARTIAL = {
 }
 ASSUMPTIONS = [
     "support mappings of the colliders satisfy the C03 contract (IsSupport) - hypothesis of every S2 theorem",
-    "the simplex solver satisfies SolverSpec (min-norm point of the hull of the stored points, positive weights on "
-    "the kept subset) - proved by C18 outside its named degenerate bands; hypothesis here",
+    "every simplex handed to the solver lies outside the C18 degenerate bands (VisitedGood JoltGood); on those the "
+    "solver contract is a theorem (joltSolver_spec), no longer an assumption",
     "exact real arithmetic: float effects on the termination tests are outside the model",
 ]
 TRUSTED = ["_gjk_jolt.py: _distance_loop, update_simplex_ypq, max_y_length_squared, calculate_closest_points, "
            "gjk_distance_jolt are modelled in D3/Model/GjkJolt.lean; get_closest_point_to_origin and the "
            "barycentric routines are taken from D3/Model/Simplex.lean (property C18)"]
 MANIFEST = dict(
-    text=("Lean S2 theorems on the model of gjk_distance_jolt with abstract support oracles and solver specification "
+    text=("Lean S2 theorems on the model of gjk_distance_jolt with abstract support oracles and a solver contract "
           "(inv_step/inv, feasible, exit_intersection, progress_gap, weak_duality, exit_stall_accuracy, "
           "separated_positive, clipped_only_beyond, step_no_failure, terminates; BarySpec proved for the model of the "
-          "three barycentric routines outside their degenerate bands); "
+          "three barycentric routines outside their degenerate bands); the solver contract is proved for the model of "
+          "the real solver outside the C18 bands (joltSolver_spec) and every theorem is instantiated at "
+          "joltSolver/joltBary (jolt_*); "
           "step-wise correspondence on recorded traces of the real _distance_loop; certificate oracle (membership + "
           "verified distance bracket + exact ground truth) on the real gjk.gjk."),
-    note=("trusted: Lean kernel + Mathlib, axioms propext/Classical.choice/Quot.sound; exact-real semantics; solver "
-          "and support contracts are hypotheses (C18/C03); model-code tie by sampling with measured exit coverage."),
+    note=("trusted: Lean kernel + Mathlib, axioms propext/Classical.choice/Quot.sound; exact-real semantics; the support "
+          "contract (C03) and 'every visited simplex is outside the C18 bands' are hypotheses; model-code tie by sampling with measured exit coverage."),
     technique="Lean 4 proof on hand-written model + step-wise correspondence on recorded traces + certificate oracle",
     design="§7 C01")
 
@@ -715,6 +729,13 @@ def fixed_scenes():
            "radius": 1.0}
     out.append((ell, dsk, {"mode": "F:flat-perpendicular-regression", "gt": 2.0}))
     out.append((dsk, ell, {"mode": "F:flat-perpendicular-regression", "gt": 2.0}))
+    # regression (repaired by dbe9d34): ellipsoid touching a vertex of a small mesh; the final simplex is a
+    # well-shaped triangle of size 1e-4 that get_barycentric_coordinates_plane declared degenerate
+    # (abs(4 area^2) < EPSILON, absolute); the common point was 1.2e-5 outside the mesh (tolerance 1.17e-5)
+    ella = {"type": "ellipsoid", "R": [[-0.44658985378830973, -0.8779207192020766, -0.1726635841428199], [-0.5747130509780647, 0.13356041864974366, 0.8073825138096498], [-0.6857568166112681, 0.45980085402901727, -0.5641992228861767]], "t": [0.0, -0.0, -0.0], "radii": [0.14106807927143833, 0.5833732920360251, 0.40097554341818525]}
+    msh = {"type": "mesh", "R": [[0.17328403842969076, -0.7630488625413954, -0.6226789505032109], [0.3110351412767567, -0.5574868207974228, 0.7697178609907204], [-0.9344676468002759, -0.32705485474376406, 0.14073144308252483]], "t": [-0.0026750940877167152, -0.3150214598870589, 0.10781183015195309], "mesh": 1, "scale": [0.022123164011592603, 0.022123164011592603, 0.022123164011592603]}
+    out.append((ella, msh, {"mode": "F:tiny-final-triangle-regression", "gt": 0.0}))
+    out.append((msh, ella, {"mode": "F:tiny-final-triangle-regression", "gt": 0.0}))
     return out
 
 
@@ -998,6 +1019,41 @@ def compare_steps(ctx, steps, tag, lattice_q=False):
                           "%s | python branch %s | model branch %s | margins %s" % (msg, pb, r.get("br"), mg), seed)
 
 
+def visited_good(ctx, steps, cap=3000):
+    """Run-time evidence for the hypothesis VisitedGood JoltGood of the C01.jolt_* theorems: the Lean checker joltGoodB
+    (D3.Gjk.joltGoodB_iff: it decides JoltGood) evaluated at exact rationals on the simplices the recorded runs handed
+    to get_closest_point_to_origin. Evidence only: a simplex inside a C18 band is not a violation (the oracle judges
+    the answers there), it is a call the solver theorems do not cover."""
+    drv = core.Driver("c01-good")
+    plan = []
+    for st, seed in steps[:cap]:
+        ins = st["ins"]
+        n = ins["n"]
+        if not st["solver"] or n > 3:
+            continue
+        if not all(np.all(np.isfinite(ins[k])) for k in ("p", "q")):
+            continue
+        Y = clean_rows(ins["Y"], min(n, 4)).copy()
+        Y[n] = np.asarray(ins["p"], dtype=float) - np.asarray(ins["q"], dtype=float)
+        if not np.all(np.isfinite(Y)):
+            continue
+        plan.append((n + 1, drv.add("C01.good", "Q", [enc(x, "Q") for x in Y.ravel()] + [str(n + 1)])))
+    if not plan:
+        return
+    out = drv.run()
+    tot, good = {}, {}
+    for n, cid in plan:
+        parts = out.get(cid, "bad").split()
+        if parts[:1] != ["ok"]:
+            ctx.broke("correspondence", "C01.good", "driver: %s" % " ".join(parts)[:100])
+            continue
+        tot[n] = tot.get(n, 0) + 1
+        good[n] = good.get(n, 0) + int(parts[1])
+    ctx.extra["visited_simplices"] = {str(k): tot[k] for k in sorted(tot)}
+    ctx.extra["visited_jolt_good"] = {str(k): good.get(k, 0) for k in sorted(tot)}
+    ctx.extra["visited_jolt_good_fraction"] = sum(good.values()) / max(1, sum(tot.values()))
+
+
 def diff_step(st, r, exact, sc, tolv=1e-9):
     """None if the model's step output agrees with the recorded one"""
     if "bad" in r:
@@ -1189,6 +1245,13 @@ def compare_runs(ctx, runs, tag):
         if not okd:
             ctx.broke("correspondence", "gjk_distance_jolt", "distance: impl %r model %r (iterations %d vs %d)" % (
                 d, dm, len(steps), iters), seed)
+        elif not oka and same_path and a is not None and am is not None and \
+                np.all(np.abs((a - am) - (b - bm)) <= max(tol, 1e-7 * L)) and \
+                float(np.max(np.abs(a - am))) <= 1e-5 * L:
+            # parallel features: the optimum is a whole set; both sides moved BOTH points by the same small vector
+            # (a - b unchanged): the last bits of an ill-conditioned barycentric solve, not a different answer.
+            # Feasibility of the implementation's points is judged by the independent oracle, not here.
+            ctx.extra["run_point_shift_ties"] = ctx.extra.get("run_point_shift_ties", 0) + 1
         elif not oka and same_path:
             # closest points are not unique for parallel features: only a same-path difference counts
             ctx.broke("correspondence", "gjk_distance_jolt", "closest points: impl %s %s model %s %s" % (
@@ -1429,6 +1492,8 @@ def correspondence(ctx):
         compare_steps(ctx, steps_by["L"], "L")
         compare_steps(ctx, steps_by["Lq"], "Lq", lattice_q=True)
         compare_steps(ctx, steps_by["G"], "G")
+        k = ctx.budget(1000, 20000)
+        visited_good(ctx, steps_by["Lq"][:k] + steps_by["L"][:k] + steps_by["G"][:k], cap=3 * k)
         compare_ccp(ctx, ccps, "all")
         compare_runs(ctx, runs, "all")
         compare_hull_e2e(ctx, hull_pairs)
